@@ -23,7 +23,8 @@ func zzSanitize(k string) string {
 }
 
 // ZZ_C20_labels: the label-info series pairs every sanitised key with the value of that
-// same label, also for dotted/slashed/dashed keys and keys that collide after sanitising.
+// same label, also for dotted/slashed/dashed keys, keys that collide after sanitising and keys
+// whose relative order changes once sanitised ("a.c" < "a1" but "a1" < "a_c").
 func ZZ_C20_labels() {
 	n := nondet.Int("nLabels", 0, 3)
 	labels := map[string]string{}
@@ -32,7 +33,7 @@ func ZZ_C20_labels() {
 		if i >= n {
 			break
 		}
-		k := nondet.String("key"+strconv.Itoa(i), "foo", "tic", "a.b/c", "a_b_c", "extendeddaemonset.datadoghq.com/name", "app-x")
+		k := nondet.String("key"+strconv.Itoa(i), "foo", "tic", "a.b/c", "a_b_c", "extendeddaemonset.datadoghq.com/name", "app-x", "a1", "a.c")
 		if _, dup := labels[k]; dup {
 			nondet.Assume(false)
 		}
